@@ -28,6 +28,7 @@ import (
 	"github.com/slackhq/nebula/firewall"
 	"github.com/slackhq/nebula/overlay/batch"
 	"github.com/slackhq/nebula/overlay/tio"
+	"golang.org/x/sys/unix"
 	"verifharness/hx"
 )
 
@@ -81,24 +82,24 @@ type coalSpec struct {
 	Opts         []byte
 	Pay          []byte
 	// deviations from the plain shape
-	FragOff     uint16
-	MF          bool
-	IPOpts      []byte
-	Ext         []coalExt
-	Trail       []byte
-	Slack       []byte
-	IPLenDelta  int  // added to the IP length field
-	UDPLenSet   bool // UDP length field := UDPLen
-	UDPLen      uint16
-	DoffSet     bool
-	Doff        byte
-	BadIPCk     bool
-	BadL4Ck     bool
-	Truncate    int // > 0: keep only this many bytes of the rendered packet
-	VersionSet  bool
-	Version     byte
-	ZeroUDPCk   bool
-	Note        string
+	FragOff    uint16
+	MF         bool
+	IPOpts     []byte
+	Ext        []coalExt
+	Trail      []byte
+	Slack      []byte
+	IPLenDelta int  // added to the IP length field
+	UDPLenSet  bool // UDP length field := UDPLen
+	UDPLen     uint16
+	DoffSet    bool
+	Doff       byte
+	BadIPCk    bool
+	BadL4Ck    bool
+	Truncate   int // > 0: keep only this many bytes of the rendered packet
+	VersionSet bool
+	Version    byte
+	ZeroUDPCk  bool
+	Note       string
 }
 
 func coalSum(b []byte, init uint32) uint32 {
@@ -265,16 +266,16 @@ func coalRender(s *coalSpec) []byte {
 // ---- abstraction: bytes -> the pkt record of coq/model/Coalesce.v ---------------------------------------
 
 type coalAbs struct {
-	Proto                                           uint64
-	Shape                                           string
-	V6                                              bool
-	Src, Dst                                        *big.Int
-	Sport, Dport, Tos, Flow, Ttl, Nxt               uint64
-	Df, Rsv                                         bool
-	Id, Seq, Ack, X2, Flags, Win, Urg               uint64
-	Opts                                            []byte
-	Ipck, L4ck                                      uint64
-	Pay, Trail, Raw                                 []byte
+	Proto                             uint64
+	Shape                             string
+	V6                                bool
+	Src, Dst                          *big.Int
+	Sport, Dport, Tos, Flow, Ttl, Nxt uint64
+	Df, Rsv                           bool
+	Id, Seq, Ack, X2, Flags, Win, Urg uint64
+	Opts                              []byte
+	Ipck, L4ck                        uint64
+	Pay, Trail, Raw                   []byte
 }
 
 type coalPP struct {
@@ -529,6 +530,83 @@ type coalCall struct {
 	thdr  []byte
 	pays  [][]byte
 	proto tio.GSOProto
+	// what the real tio.Offload put on its file descriptor for this call: virtio_net_hdr + packet bytes
+	frame   []byte
+	frameOK bool
+}
+
+// coalTun is the real tio.Offload (the tun queue nebula writes to) over one end of an AF_UNIX datagram socketpair:
+// every writev of Write / WriteGSO arrives at the other end as one message, exactly the bytes the tun device would get.
+type coalTun struct {
+	off *tio.Offload
+	rfd int
+	buf []byte
+}
+
+var coalTunDev *coalTun
+
+func coalGetTun() *coalTun {
+	if coalTunDev != nil {
+		return coalTunDev
+	}
+	fds, err := unix.Socketpair(unix.AF_UNIX, unix.SOCK_DGRAM, 0)
+	if err != nil {
+		panic("coalesce: socketpair: " + err.Error())
+	}
+	_ = unix.SetsockoptInt(fds[0], unix.SOL_SOCKET, unix.SO_SNDBUF, 1<<20)
+	_ = unix.SetsockoptInt(fds[1], unix.SOL_SOCKET, unix.SO_RCVBUF, 1<<20)
+	off, err := tio.VerifNewOffload(fds[0], true)
+	if err != nil {
+		panic("coalesce: VerifNewOffload: " + err.Error())
+	}
+	coalTunDev = &coalTun{off: off, rfd: fds[1], buf: make([]byte, 1<<17)}
+	return coalTunDev
+}
+
+func (t *coalTun) read() []byte {
+	n, err := unix.Read(t.rfd, t.buf)
+	if err != nil || n < 0 {
+		return nil
+	}
+	return append([]byte(nil), t.buf[:n]...)
+}
+
+// coalFrameOK is the documented contract of the tun write path (overlay/tio): a plain Write is the packet behind a
+// virtio_net_hdr that only says DATA_VALID; a WriteGSO is hdr ++ transport hdr ++ payload fragments behind a header with
+// NEEDS_CSUM, the GSO type of the protocol / IP version, hdr_len = L3 + L4 header length, gso_size = the first
+// fragment's length, csum_start = L3 header length, csum_offset = offset of the L4 checksum field.
+func coalFrameOK(c *coalCall) bool {
+	f := c.frame
+	if len(f) < 10 {
+		return false
+	}
+	le16 := func(b []byte) int { return int(binary.NativeEndian.Uint16(b)) }
+	if !c.gso {
+		want := make([]byte, 10)
+		want[0] = unix.VIRTIO_NET_HDR_F_DATA_VALID
+		return bytes.Equal(f[:10], want) && bytes.Equal(f[10:], c.pkt)
+	}
+	body := append(append([]byte(nil), c.hdr...), c.thdr...)
+	for _, p := range c.pays {
+		body = append(body, p...)
+	}
+	if !bytes.Equal(f[10:], body) || len(c.pays) < 2 || len(c.hdr) == 0 {
+		return false
+	}
+	gt, co := 0, 0
+	switch {
+	case c.proto == tio.GSOProtoUDP:
+		gt, co = unix.VIRTIO_NET_HDR_GSO_UDP_L4, 6
+	case c.hdr[0]>>4 == 4:
+		gt, co = unix.VIRTIO_NET_HDR_GSO_TCPV4, 16
+	case c.hdr[0]>>4 == 6:
+		gt, co = unix.VIRTIO_NET_HDR_GSO_TCPV6, 16
+	default:
+		return false
+	}
+	return f[0] == unix.VIRTIO_NET_HDR_F_NEEDS_CSUM && int(f[1]) == gt &&
+		le16(f[2:4]) == len(c.hdr)+len(c.thdr) && le16(f[4:6]) == len(c.pays[0]) &&
+		le16(f[6:8]) == len(c.hdr) && le16(f[8:10]) == co
 }
 
 type coalRec struct {
@@ -537,7 +615,15 @@ type coalRec struct {
 }
 
 func (w *coalRec) Write(p []byte) (int, error) {
-	w.calls = append(w.calls, coalCall{pkt: append([]byte(nil), p...)})
+	c := coalCall{pkt: append([]byte(nil), p...)}
+	if len(p) > 0 {
+		t := coalGetTun()
+		if _, err := t.off.Write(p); err == nil {
+			c.frame = t.read()
+			c.frameOK = coalFrameOK(&c)
+		}
+	}
+	w.calls = append(w.calls, c)
 	return len(p), nil
 }
 
@@ -545,6 +631,11 @@ func (w *coalRec) WriteGSO(hdr []byte, thdr []byte, pays [][]byte, proto tio.GSO
 	c := coalCall{gso: true, hdr: append([]byte(nil), hdr...), thdr: append([]byte(nil), thdr...), proto: proto}
 	for _, p := range pays {
 		c.pays = append(c.pays, append([]byte(nil), p...))
+	}
+	t := coalGetTun()
+	if err := t.off.WriteGSO(hdr, thdr, pays, proto); err == nil {
+		c.frame = t.read()
+		c.frameOK = coalFrameOK(&c)
 	}
 	w.calls = append(w.calls, c)
 	return nil
@@ -571,6 +662,9 @@ func coalSegment(c *coalCall) (segs [][]byte, ok bool) {
 		return nil, false
 	}
 	gs := len(c.pays[0])
+	if c.frameOK { // the kernel reads gso_size from the virtio_net_hdr
+		gs = int(binary.NativeEndian.Uint16(c.frame[4:6]))
+	}
 	var payload []byte
 	for _, p := range c.pays {
 		payload = append(payload, p...)
@@ -666,11 +760,12 @@ func coalRealPP(b []byte) (coalPP, bool) {
 }
 
 type coalBatchResult struct {
-	lit      string
-	desc     map[string]any
-	nGSO     int
-	nSegs    int
-	panicked bool
+	lit       string
+	desc      map[string]any
+	nGSO      int
+	nSegs     int
+	panicked  bool
+	badFrames int // calls for which the real tio.Offload did not put the contracted virtio_net_hdr + bytes on its fd
 }
 
 func coalRunBatch(ins []*coalIn, tso, uso, plainWriter bool, lits *coalLits) (res coalBatchResult) {
@@ -722,6 +817,9 @@ func coalRunBatch(ins []*coalIn, tso, uso, plainWriter bool, lits *coalLits) (re
 	parseOK := true
 	for ci := range rec.calls {
 		c := &rec.calls[ci]
+		if !c.frameOK {
+			res.badFrames++
+		}
 		if !c.gso {
 			s, isIdx := absOf(c.pkt)
 			if isIdx {
@@ -786,7 +884,7 @@ func coalRunBatch(ins []*coalIn, tso, uso, plainWriter bool, lits *coalLits) (re
 		}
 	}
 	res.lit = fmt.Sprintf("(CBatch %s %s\n %s\n %s\n %s\n %s\n %s)", hx.Bool(tso && !plainWriter), hx.Bool(uso && !plainWriter),
-		hx.List(lits.tpls), hx.List(inLits), hx.List(wLits), hx.List(sLits), hx.Bool(csumOK && parseOK && !panicked))
+		hx.List(lits.tpls), hx.List(inLits), hx.List(wLits), hx.List(sLits), hx.Bool(csumOK && parseOK && !panicked && res.badFrames == 0))
 	return res
 }
 
@@ -802,12 +900,12 @@ type coalFlow struct {
 }
 
 type coalGenState struct {
-	c       *hx.Ctx
-	lits    *coalLits
-	nextStr uint64
+	c          *hx.Ctx
+	lits       *coalLits
+	nextStr    uint64
 	bigPackets int // packets of the batch under construction (bounds the payload volume of large-payload batches)
-	ppCache map[string]coalPP
-	ppKind  map[string]string
+	ppCache    map[string]coalPP
+	ppKind     map[string]string
 }
 
 func (g *coalGenState) payload(n int) []byte {
@@ -1188,7 +1286,7 @@ func coalRun(c *hx.Ctx) {
 		totalGSO += res.nGSO
 		totalSegs += res.nSegs
 		desc := map[string]any{"packets": len(ins), "tso": tso, "uso": uso, "plain_writer": plain, "gso_writes": res.nGSO,
-			"delivered_after_segmentation": res.nSegs, "mix": notes, "panicked": res.panicked}
+			"delivered_after_segmentation": res.nSegs, "mix": notes, "panicked": res.panicked, "bad_tun_frames": res.badFrames}
 		if len(ins) <= 12 && nbytes <= 4096 {
 			var hs []string
 			for _, in := range ins {
@@ -1247,8 +1345,12 @@ func coalRun(c *hx.Ctx) {
 			for _, n := range []int{1, 2, 63, 64, 65, 66, 129} {
 				emit(chain(n, 3, nil), true, true, false, "corpus-segcap")
 			}
-			// byte cap: chains whose total sits at 65535 -1 / 0 / +1
+			// byte cap: chains whose total sits at 65535 -1 / 0 / +1 (quick tier: two of the four header shapes)
+			bigCorpus := c.Tier != "quick" || (l4 == 6) != v6
 			for _, d := range []int{-1, 0, 1} {
+				if !bigCorpus && d == -1 {
+					continue
+				}
 				mss := 1400
 				k := (65535 - hl) / mss // full segments that fit
 				rest := 65535 - hl - k*mss + d
@@ -1266,6 +1368,9 @@ func coalRun(c *hx.Ctx) {
 			}
 			// largest single packets
 			for _, d := range []int{-1, 0} {
+				if !bigCorpus && d == -1 {
+					continue
+				}
 				emit(run(2, func(i int) *coalSpec {
 					s := base(v6, l4)
 					s.Seq = uint32(1000 + i*(65535-hl+d))
@@ -1380,6 +1485,9 @@ func coalRun(c *hx.Ctx) {
 			npk = 10 + c.Intn(50)
 		case r < 70:
 			npk = 60 + c.Intn(240)
+			if c.Tier == "quick" && c.Chance(0.5) {
+				npk = 60 + c.Intn(60)
+			}
 		}
 		big := c.Chance(0.06)
 		if big && npk > 100 {
@@ -1416,4 +1524,3 @@ func coalRun(c *hx.Ctx) {
 	cw.Meta("delivered_after_segmentation", totalSegs)
 	cw.Close("one case = one batch (Commit* + Flush) through the real MultiCoalescer; nontrivial = the batch produced at least one WriteGSO superpacket")
 }
-
